@@ -13,6 +13,8 @@ import (
 	"fmt"
 	"net"
 	"net/netip"
+	"os"
+	"path/filepath"
 	"strings"
 	"testing"
 
@@ -166,13 +168,48 @@ func (u *vc05Upstream) ServeDNS(ctx context.Context, rw dnsserver.ResponseWriter
 	return rw.WriteMsg(ctx, req, resp)
 }
 
+// vc05Env selects the GeoIP database behind a run: the harness model, or the
+// real geoip.File on the repository's test MMDB files.
+type vc05Env struct {
+	geo  geoip.Interface
+	real bool
+}
+
+// vc05RealAddrs are addresses known to the test databases (AU/ASN 1221, US/WA,
+// JP, US country subnet, JP country subnet) and some unknown to them.
+var vc05RealAddrs = []string{"1.128.0.0", "1.128.0.77", "216.160.83.56", "2001:218::", "2001:218::1234", "76.128.0.5", "240f::1", "203.0.113.9", "2001:db8::9", "89.160.20.112", "81.2.69.142"}
+
+func vc05NewRealGeo(tb testing.TB) geoip.Interface {
+	dir := os.Getenv("VERIF_REPO")
+	if dir == "" {
+		dir = "/repo"
+	}
+
+	td := filepath.Join(dir, "internal", "geoip", "testdata")
+	g := geoip.NewFile(&geoip.FileConfig{
+		Logger:         slogutil.NewDiscardLogger(),
+		CacheManager:   agdcache.EmptyManager{},
+		ASNPath:        filepath.Join(td, "GeoIP2-ISP-Test.mmdb"),
+		CountryPath:    filepath.Join(td, "GeoIP2-City-Test.mmdb"),
+		HostCacheCount: 0,
+		IPCacheCount:   100,
+		AllTopASNs:     geoip.DefaultTopASNs,
+		CountryTopASNs: geoip.DefaultCountryTopASNs,
+	})
+	if err := g.Refresh(context.Background()); err != nil {
+		tb.Fatalf("harness: loading the test GeoIP databases: %v", err)
+	}
+
+	return g
+}
+
 type vc05Stack struct {
 	h  dnsserver.Handler
 	up *vc05Upstream
 }
 
-func vc05NewStack(tb testing.TB) (s *vc05Stack) {
-	geo := vc05NewGeo()
+func vc05NewStack(tb testing.TB, env *vc05Env) (s *vc05Stack) {
+	geo := env.geo
 	up := &vc05Upstream{}
 	cacheMw := ecscache.NewMiddleware(&ecscache.MiddlewareConfig{
 		Cloner:       agdtest.NewCloner(),
@@ -207,6 +244,11 @@ func vc05NewStack(tb testing.TB) (s *vc05Stack) {
 	return &vc05Stack{h: rlMw.Wrap(cacheMw.Wrap(up)), up: up}
 }
 
+// vc05UseRealAddrs switches the address generator to the test databases'
+// networks; set by the test that uses the real GeoIP file (tests do not run in
+// parallel).
+var vc05UseRealAddrs bool
+
 // ECS option modes.
 const (
 	vc05None = iota
@@ -240,6 +282,10 @@ func (c vc05Client) String() string {
 }
 
 func vc05DrawAddr(t *rapid.T, label string, ecs bool) netip.Addr {
+	if vc05UseRealAddrs {
+		return netip.MustParseAddr(rapid.SampledFrom(vc05RealAddrs).Draw(t, label+"Real"))
+	}
+
 	pools := []string{"203.0.113.%d", "203.0.113.%d", "2001:db8:c1::%x", "2001:db8:c2::%x", "2001:db8:cf::%x"}
 	if ecs {
 		pools = []string{"192.0.2.%d", "192.0.2.%d", "2001:db8:e1:%x::", "2001:db8:e2:%x::", "2001:db8:ef:%x::"}
@@ -406,14 +452,33 @@ func vc05BuildReq(t *rapid.T, name string, qt uint16, do bool, c vc05Client) (re
 }
 
 func TestVerifC05History(tt *testing.T) {
-	t := tt
 	st := vstat.New("C05", "dnssvc.ecs-history",
-		"rapid histories of clients (v4/v6, known/unknown location, ECS none/valid/declined/malformed) asking overlapping scoped and unscoped names through ratelimitmw+ecscache in front of a subnet-tagging upstream; non-trivial = cache hit on a scoped name, or a declined or malformed request; distinct by (question, client ECS mode, effective subnet, hit)",
+		"rapid histories of clients (v4/v6, known/unknown location, ECS none/valid/declined/malformed/two options) asking overlapping scoped and unscoped names through ratelimitmw+ecscache in front of a subnet-tagging upstream, model GeoIP database; non-trivial = cache hit on a scoped name, or a declined or malformed request; distinct by (question, client ECS mode, effective subnet, hit)",
 		"hit-scoped", "declined", "malformed", "declined-after-scoped-cached", "scoped-other-subnet", "valid-ecs", "two-ecs-options")
-	st.Finish(t)
+	st.Finish(tt)
 
+	vc05UseRealAddrs = false
+	vc05RunHistories(tt, st, &vc05Env{geo: vc05NewGeo()})
+}
+
+// TestVerifC05RealGeoIP runs the same histories with the real geoip.File on the
+// repository's test MMDB databases; the reference asks that database directly.
+func TestVerifC05RealGeoIP(tt *testing.T) {
+	st := vstat.New("C05", "dnssvc.ecs-history-real-geoip",
+		"as dnssvc.ecs-history, but the GeoIP database is geoip.File on the repository's test MMDB files and client / ECS addresses are drawn from networks those files know (AU/ASN 1221, US/WA, JP, SE, GB) and do not know; the allowed upstream subnets are obtained from the database itself; non-trivial and distinct as above",
+		"hit-scoped", "declined", "malformed", "valid-ecs", "upstream-nonzero-subnet")
+	st.Finish(tt)
+
+	vc05UseRealAddrs = true
+	defer func() { vc05UseRealAddrs = false }()
+
+	vc05RunHistories(tt, st, &vc05Env{geo: vc05NewRealGeo(tt), real: true})
+}
+
+func vc05RunHistories(tt *testing.T, st *vstat.Stats, env *vc05Env) {
+	t := tt
 	rapid.Check(t, func(t *rapid.T) {
-		s := vc05NewStack(tt)
+		s := vc05NewStack(tt, env)
 		var hist []string
 		type asked struct {
 			name string
@@ -490,20 +555,25 @@ func TestVerifC05History(tt *testing.T) {
 			fams := []netutil.AddrFamily{netutil.AddrFamilyIPv4, netutil.AddrFamilyIPv6}
 			allowed := map[string]bool{"0.0.0.0/0": true, "::/0": true}
 			if !declined {
-				locs := []vc05Loc{}
-				if l, ok := vc05LocOf(c.Remote); ok {
-					locs = append(locs, l)
-				}
-
+				addrs := []netip.Addr{c.Remote}
 				if c.Mode == vc05Valid {
-					if l, ok := vc05LocOf(c.Subnet.Addr()); ok {
-						locs = append(locs, l)
-					}
+					addrs = append(addrs, c.Subnet.Addr())
 				}
 
-				for _, l := range locs {
+				for _, a := range addrs {
+					l, derr := env.geo.Data("", a)
+					if derr != nil || l == nil {
+						continue
+					}
+
 					for _, f := range fams {
-						allowed[vc05GeoSubnet(l, f).String()] = true
+						// The reference asks the database directly, with a copy
+						// of the location (the real file mutates its argument).
+						lc := *l
+						n, serr := env.geo.SubnetByLocation(&lc, f)
+						if serr == nil {
+							allowed[n.String()] = true
+						}
 					}
 				}
 			}
@@ -528,8 +598,16 @@ func TestVerifC05History(tt *testing.T) {
 					t.Fatalf("history %v: upstream got unparsable subnet %q", hist, sub)
 				}
 
-				if p.Bits() > 0 && (p.Contains(c.Remote) || (c.Mode == vc05Valid && p.Overlaps(c.Subnet))) {
+				// With the model database every coarse subnet is disjoint from
+				// every client address and client-supplied subnet by construction;
+				// a real database may legitimately place a client inside its
+				// country's subnet, so there only membership is judged.
+				if !env.real && p.Bits() > 0 && (p.Contains(c.Remote) || (c.Mode == vc05Valid && p.Overlaps(c.Subnet))) {
 					t.Fatalf("history %v: upstream subnet %s reveals client %s", hist, sub, c)
+				}
+
+				if call.ecs.SourceNetmask != 0 {
+					st.Class("upstream-nonzero-subnet")
 				}
 
 				if call.ecs.SourceScope != 0 {
@@ -542,7 +620,7 @@ func TestVerifC05History(tt *testing.T) {
 			}
 
 			// P3: warm equals fresh.
-			fs := vc05NewStack(tt)
+			fs := vc05NewStack(tt, env)
 			fresh, _, fcalls, _ := vc05Exchange(t, fs, c, req.Copy())
 			if g, w := vdns.Canon(resp, vdns.CanonOpts{WithOPT: true}), vdns.Canon(fresh, vdns.CanonOpts{WithOPT: true}); g != w {
 				t.Fatalf("history %v\nwarm  %s\nfresh %s", hist, g, w)
